@@ -1240,8 +1240,21 @@ func checkC11(w *World, r *Report) {
 	// sender of the message being handled), which is the single-worker protocol of C02
 	r.Rule("C11.R5", "the responding actor runs one Receive at a time: worker token protocol (C02.R1-R4)", 6)
 	importRules(w, r, checkC02, "C02", "C11.R5", func(o *Obligation) bool {
-		return o.Rule == "C02.R1" || o.Rule == "C02.R2" || o.Rule == "C02.R3" || o.Rule == "C02.R4"
+		return o.Rule == "C02.R1" || o.Rule == "C02.R2" || o.Rule == "C02.R3" || o.Rule == "C02.R4" || o.Rule == "C02.R6"
 	})
+	// R7: the reply travels like any message: whatever value Respond is given (a nil interface included) passes the
+	// dispatcher to the local delivery or the remote (C01.R1, C09.R2), and a reply that crosses the wire is decoded into a
+	// message of its own (C15.R8: a shared prototype would be overwritten by the next reply of that type)
+	if r.Prop == "C11" {
+		r.Rule("C11.R7", "the reply passes the dispatcher unconditionally (C01.R1/C09.R2 rows of Engine.send) and is decoded into a fresh message on the remote path (C15.R8)", 5)
+		importRules(w, r, checkC01, "C01", "C11.R7", func(o *Obligation) bool {
+			return o.Rule == "C01.R1" && strings.Contains(o.Key, ").send->")
+		})
+		importRules(w, r, checkC09, "C09", "C11.R7", func(o *Obligation) bool {
+			return o.Rule == "C09.R2" && strings.Contains(o.Key, ").send->")
+		})
+		importRules(w, r, checkC15, "C15", "C11.R7", func(o *Obligation) bool { return o.Rule == "C15.R8" })
+	}
 	// R6: when Result returns, the response PID is gone: Registry.Remove deletes under the write lock before it returns
 	r.Rule("C11.R6", "Registry.Remove deletes the entry synchronously (under the lock, on every path, no goroutine)", 1)
 	{
